@@ -20,7 +20,9 @@
 //
 // One output line per input line:
 //
-//   case <n>                                             -> case <n>      (forgets the builders of the case before)
+//   case <n>                                             -> case <n>      (forgets the builders of the case before;
+//                                                           with the argument --fresh every case is handled in a
+//                                                           forked child of its own: no process history at all)
 //   build <path> <keytype> <mode> <layout> <script...>   -> cyc[t ..] pub[t:-[r ..]+[a ..]={m ..} ..]
 //        path     a word ([A-Za-z0-9._/:-], at most 60 characters)
 //        keytype  int | i32 | str        (script keys k are Int k / int32 k / the string "s<k>"; printed as k)
@@ -48,6 +50,9 @@
 #include <optional>
 #include <string>
 #include <vector>
+
+#include <sys/wait.h>
+#include <unistd.h>
 
 using namespace hgraph;
 using namespace hgv;
@@ -274,21 +279,46 @@ namespace
     }
 }  // namespace
 
-int main()
+/** `--fresh` only: what the parent does before it forks - scalar registrations, the harness's own node types, one run of
+    a graph WITHOUT any service node - so that a child does not pay the first-use cost of the runtime again.  Nothing in
+    here reaches runtime/service_node.cpp. */
+template <typename K> void warm_types(const char *scalar_name)
 {
-    std::ios::sync_with_stdio(false);
-    std::vector<std::unique_ptr<Built>> builders;    // the builders of the current case, in `build` order
-    std::string                         line;
-    while (std::getline(std::cin, line))
+    (void)TypeRegistry::instance().register_scalar<K>(scalar_name);
+    (void)NodeBuilder{}.implementation<KeyScript<K>>();
+    (void)NodeBuilder{}.implementation<Observe<K>>();
+    GraphBuilder gb;
+    gb.add_node(NodeBuilder{}.implementation<KeyScript<K>>());
+    GraphExecutorBuilder eb;
+    eb.graph_builder(std::move(gb)).mode(GraphExecutorMode::Simulation).start_time(MIN_ST).end_time(MIN_ST + MIN_TD * 5);
+    eb.add_lifecycle_observer(&g_obs);
+    const Script script{Int{1}, std::nullopt};
+    g_script = &script;
+    try
+    {
+        GraphExecutorValue executor = eb.make_executor();
+        executor.view().run();
+    }
+    catch (const std::exception &) {}
+    g_script = nullptr;
+}
+
+void warm()
+{
+    warm_types<Int>("int");
+    warm_types<std::int32_t>("int32");
+    warm_types<Str>("str");
+}
+
+/** the lines of one case (a `case` header and what follows it up to the next header) */
+void run_case(const std::vector<std::string> &lines, std::vector<std::string> &outs)
+{
+    std::vector<std::unique_ptr<Built>> builders;    // the builders of the case, in `build` order
+    for (const auto &line : lines)
     {
         const auto w = split(line);
-        if (w.empty()) { std::cout << "\n"; continue; }
-        if (w.size() == 2 && w[0] == "case")
-        {
-            builders.clear();
-            std::cout << "case " << w[1] << "\n";
-            continue;
-        }
+        if (w.empty()) { outs.emplace_back(); continue; }
+        if (w.size() == 2 && w[0] == "case") { outs.push_back("case " + w[1]); continue; }
         std::string out = "bad-op";
         if (w[0] == "build")
         {
@@ -311,8 +341,73 @@ int main()
                 out           = b == nullptr ? std::string{"err:build"} : run(*b);
             }
         }
-        std::cout << out << "\n";
+        outs.push_back(std::move(out));
     }
+}
+
+int main(int argc, char **argv)
+{
+    std::ios::sync_with_stdio(false);
+    // `--fresh`: every case is handled by a child process forked HERE, before this process has built a service node or
+    // run a service graph: each case then sees a process without any service history (see warm()).
+    const bool               fresh = argc > 1 && std::string{argv[1]} == "--fresh";
+    if (fresh) { warm(); }
+    std::vector<std::string> pending;
+    const auto               flush = [&] {
+        if (pending.empty()) return;
+        std::vector<std::string> outs;
+        if (!fresh) { run_case(pending, outs); }
+        else
+        {
+            int fds[2];
+            if (pipe(fds) != 0) return;
+            std::cout.flush();
+            const pid_t child = fork();
+            if (child == 0)
+            {
+                close(fds[0]);
+                run_case(pending, outs);
+                std::string text;
+                for (const auto &o : outs) text += o + "\n";
+                std::size_t done = 0;
+                while (done < text.size())
+                {
+                    const auto n = write(fds[1], text.data() + done, text.size() - done);
+                    if (n <= 0) break;
+                    done += static_cast<std::size_t>(n);
+                }
+                close(fds[1]);
+                _exit(0);
+            }
+            close(fds[1]);
+            std::string text;
+            char        buffer[4096];
+            for (;;)
+            {
+                const auto n = read(fds[0], buffer, sizeof buffer);
+                if (n <= 0) break;
+                text.append(buffer, static_cast<std::size_t>(n));
+            }
+            close(fds[0]);
+            int status = 0;
+            if (child > 0) waitpid(child, &status, 0);
+            std::istringstream is{text};
+            std::string        o;
+            while (std::getline(is, o)) outs.push_back(o);
+            while (outs.size() < pending.size()) outs.emplace_back("<crash in the forked case>");
+            outs.resize(pending.size());
+        }
+        for (const auto &o : outs) std::cout << o << "\n";
+        pending.clear();
+    };
+    std::string line;
+    while (std::getline(std::cin, line))
+    {
+        const auto w = split(line);
+        if (w.size() == 2 && w[0] == "case") flush();
+        pending.push_back(line);
+    }
+    flush();
     std::cout.flush();
     return 0;
 }
